@@ -256,6 +256,8 @@ package jet
 //@ func indirect
 //@   props C10 C07 C06 C12
 //@   loop 0 invariant true
+//@   ensures [indirection-goes-through-every-pointer-and-interface] {C06} !isNil ==> RvKind(rv) != 22 && RvKind(rv) != 20
+//@   ensures [a-nil-link-stops-the-indirection] {C06} isNil ==> (RvKind(rv) == 22 || RvKind(rv) == 20) && RvIsNil(rv)
 //@ func indirectInterface
 //@   props C10 C07 C06 C12
 //@ func indexArg
@@ -276,6 +278,8 @@ package jet
 //@   ensures [lock-released] Held == old(Held)
 //@   loop 0 invariant true
 //@   callsite fieldByIndex 0 requires [field-paths-come-from-the-cache-of-the-values-type] {C06} has(cachedStructsFieldIndex, RvTypeOf(v)) && has(cachedStructsFieldIndex[RvTypeOf(v)], caller.key) && index == cachedStructsFieldIndex[RvTypeOf(v)][caller.key]
+//@   callsite fmt.Errorf count 10
+//@   callsite fmt.Errorf 7 requires [a-map-lookup-fails-only-for-a-key-that-cannot-be-converted] {C06,C17} !lastret("(reflect.Type).ConvertibleTo", 0)
 //@   callsite buildCache 0 requires [the-cache-is-built-for-the-values-type] {C06} typ == lastret("(reflect.Value).Type", 0) && fresh(cache) && len(parent) == 0
 //@ func fieldByIndex
 //@   props C06 C12 C10 C11 C17
@@ -284,6 +288,7 @@ package jet
 //@   props C10 C05 C12
 //@   modifies type sliceRanger.i, type sliceRanger.v, type mapRanger.iter, type mapRanger.hasMore, type chanRanger.v
 //@   ensures [a-ranger-or-an-error] err == nil ==> r != nil && cleanup != nil
+//@   ensures [a-value-that-is-a-ranger-ranges-itself] {C05} RvValid(old(v)) && TImpl(RvTypeOf(old(v)), rangerType) ==> err == nil && r == RvInterface(old(v))
 
 // ---- evaluation: every evaluator leaves S(st) as it found it on normal return ----------------------
 //@ func (*Runtime).evalPrimaryExpressionGroup
@@ -538,6 +543,8 @@ package jet
 //@   callsite (*Runtime).resolve count 0
 //@   check [every-declared-parameter-is-bound] {C08} !panicking() && (len(blockParam.List) > 0 || len(yieldParam.List) > 0) ==> visits("(*Runtime).newScope", 0) == 1
 //@   callsite (*Runtime).executeList 2 requires [block-body-runs-with-the-yield-context] {C08} list == caller.block.List && st.context == lastret("(*Runtime).evalPrimaryExpressionGroup", 0)
+//@   callsite (*Runtime).executeList 2 requires [a-yield-with-content-installs-its-own-content] {C08} ite(caller.content != nil, st.content != nil, st.content == caller.mycontent)
+//@   callsite (*Runtime).executeList 3 requires [a-yield-with-content-installs-its-own-content] {C08} ite(caller.content != nil, st.content != nil, st.content == caller.mycontent)
 //@   callsite (*Runtime).executeList 3 requires [block-body-runs-in-the-parameter-scope] {C08} list == caller.block.List && st.context == old(st.context) && ite(len(caller.blockParam.List) > 0 || len(caller.yieldParam.List) > 0, st.scope.parent == old(st.scope), st.scope == old(st.scope))
 //@   loop 0 invariant RtOK(st) && 0 <= i && st.scope.variables != nil && st.scope.parent == old(st.scope) && st.context == old(st.context) && st.content == old(st.content) && st.escapeeWriter.Writer == old(st.escapeeWriter.Writer)
 //@   loop 1 invariant RtOK(st) && 0 <= i && st.scope.variables != nil && st.scope.parent == old(st.scope) && st.context == old(st.context) && st.content == old(st.content) && st.escapeeWriter.Writer == old(st.escapeeWriter.Writer)
@@ -662,7 +669,7 @@ package jet
 //@   inline
 
 //@ func (*Template).Execute
-//@   props C10 C08 C12
+//@   props C10 C08 C12 C07
 //@   anypanic
 //@   requires t != nil && t.set != nil && t.set.gmx != nil && SetOK(t.set) && w != nil && TplOK(t)
 //@   modifies @Interp, type Runtime.escapeeWriter, type escapeeWriter.set, type scope.blocks, type scope.variables, type scope.parent
